@@ -76,6 +76,10 @@ def gen_model(r, slices=("F1",), n_classes=None, prims=None):
             if f["kind"] == "Text":
                 used_text = True
             c["fields"].append(f)
+        # a mixed wildcard absorbs every child element: such a class has attributes + that field only
+        mixed = [f for f in c["fields"] if f.get("mixed")]
+        if mixed:
+            c["fields"] = [f for f in c["fields"] if f["kind"] in ("Attribute", "Attributes") or f is mixed[0]]
         # a sequence group: two or three list element fields rendered interleaved
         if r.random() < 0.25:
             g = [f for f in c["fields"] if f["kind"] == "Element" and f.get("list") and not f.get("wrapper") and not f.get("tokens")]
@@ -115,7 +119,7 @@ def gen_field(r, slices, prims, enums, later, j, used_text, c, simple=False):
             else:
                 f["list"] = k < 0.3
                 f["optional"] = not f["list"] and k < 0.7
-                if r.random() < 0.15 and tp[0] == "prim" and tp[1] not in ("str",):
+                if r.random() < 0.15 and token_ok(tp, enums):
                     f["tokens"] = True           # list of tokens in one element
                     f["list"] = r.random() < 0.3  # list of token lists
             if r.random() < 0.15:
@@ -126,7 +130,7 @@ def gen_field(r, slices, prims, enums, later, j, used_text, c, simple=False):
                 f["namespace"] = r.choice(NS + [""])
         elif kind == "Attribute":
             f["optional"] = r.random() < 0.7
-            if r.random() < 0.2 and tp[1] not in ("str",):
+            if r.random() < 0.2 and token_ok(tp, enums):
                 f["tokens"] = True
             if r.random() < 0.15:
                 f["namespace"] = r.choice(NS)
@@ -135,13 +139,15 @@ def gen_field(r, slices, prims, enums, later, j, used_text, c, simple=False):
                 f["optional"] = False
         else:  # Text
             f["optional"] = r.random() < 0.5
-            if r.random() < 0.15 and tp[1] not in ("str",):
+            if r.random() < 0.15 and token_ok(tp, enums):
                 f["tokens"] = True
         if r.random() < 0.3:
             f["xml_name"] = r.choice(["n", "item", "v-1", "A", "x.y"]) + str(j)
         if tp[0] == "prim" and tp[1] in ("hex", "b64"):
             f["format"] = "base16" if tp[1] == "hex" else "base64"
     elif kind == "Wildcard":
+        if any(x["kind"] == "Wildcard" for x in c["fields"]):
+            return None
         f["list"] = r.random() < 0.6
         f["namespace"] = r.choice(["##any", "##other", "##any", "##local", "##targetNamespace"])
         if r.random() < 0.25:
@@ -150,6 +156,7 @@ def gen_field(r, slices, prims, enums, later, j, used_text, c, simple=False):
     elif kind == "Attributes":
         if any(x["kind"] == "Attributes" for x in c["fields"]):
             return None
+        f["namespace"] = r.choice(["##any", "##any", "##other", "##local", "##targetNamespace"])
     elif kind == "Elements":
         nch = r.randint(2, 3)
         chs = []
@@ -163,6 +170,16 @@ def gen_field(r, slices, prims, enums, later, j, used_text, c, simple=False):
         f["choices"] = chs
         f["list"] = r.random() < 0.7
     return f
+
+
+def token_ok(tp, enums):
+    """can values of this type be written as whitespace separated tokens?"""
+    if tp[0] == "prim":
+        return tp[1] != "str"
+    if tp[0] == "enum":
+        e = next(x for x in enums if x["name"] == tp[1])
+        return all(" " not in str(v) for _, v in e["members"])
+    return False
 
 
 def gen_type(r, prims, enums, later):
@@ -332,15 +349,34 @@ def subclasses_of(m, name):
     return [c["name"] for c in m["classes"] if c.get("base") == name]
 
 
-def gen_any(r, depth=0):
-    q = r.choice(["{urn:x}w", "w", "{urn:a}k", "{urn:y}deep"])
-    ch = [] if depth > 1 else [gen_any(r, depth + 1) for _ in range(r.choice([0, 0, 1, 2]))]
-    text = r.choice([None, "t", "some text"]) if not ch else r.choice([None, "lead"])
-    return {"__any__": {"qname": q, "text": text, "tail": None if depth == 0 else r.choice([None, None, "tl"]),
+def any_qname(r, constraint, class_ns):
+    """a qualified name admitted by a wildcard namespace constraint"""
+    if constraint == "##local":
+        return r.choice(["w", "k", "deep"])
+    if constraint == "##targetNamespace":
+        return ("{%s}" % class_ns if class_ns else "") + r.choice(["w", "k"])
+    if constraint == "##other":
+        return "{urn:other}" + r.choice(["w", "k", "deep"])
+    return r.choice(["{urn:x}w", "w", "{urn:a}k", "{urn:y}deep"])
+
+
+def gen_any(r, depth=0, constraint="##any", class_ns=None, tail_ok=False):
+    q = any_qname(r, constraint if depth == 0 else "##any", class_ns)
+    ch = [] if depth > 1 else [gen_any(r, depth + 1, tail_ok=True) for _ in range(r.choice([0, 0, 1, 2]))]
+    # an element without text is read back with text "" (never None); whitespace-only text next to
+    # children is dropped by design
+    text = r.choice(["", "t", "some text"]) if not ch else r.choice(["", "lead"])
+    return {"__any__": {"qname": q, "text": text, "tail": r.choice([None, None, "tl"]) if tail_ok else None,
                         "attributes": {} if r.random() < 0.6 else {r.choice(["a", "{urn:x}b"]): "v"}, "children": ch}}
 
 
-def gen_value(r, m, f, depth):
+def class_namespace(m, c):
+    if "namespace" in c["meta"]:
+        return c["meta"]["namespace"] or None
+    return m.get("module_ns")
+
+
+def gen_value(r, m, f, depth, class_ns=None):
     kind = f["kind"]
     if kind in ("Element", "Attribute", "Text"):
         tp = f["type"]
@@ -353,6 +389,8 @@ def gen_value(r, m, f, depth):
             p = gen_prim(r, m, tp, tokens=f.get("tokens"))
             if kind == "Text" and p.get("__p__") == "str" and p["v"] == "":
                 p["v"] = "t"     # "" in a Text field is not distinguishable from absence in XML
+            if kind == "Text" and p.get("__p__") == "bytes" and not p["v"]:
+                p["v"] = [7]
             return p
 
         if f.get("tokens"):
@@ -369,22 +407,23 @@ def gen_value(r, m, f, depth):
             return None
         return one()
     if kind == "Wildcard":
+        cons, cns = f.get("namespace", "##any"), class_ns
         if f.get("mixed"):
+            # canonical mixed content: optional leading text, then elements carrying their tails
             out = []
+            if r.random() < 0.5:
+                out.append({"__p__": "str", "v": r.choice(["txt", "more text", "x"])})
             for _ in range(r.choice([0, 1, 2, 3])):
-                out.append(gen_any(r) if r.random() < 0.6 else {"__p__": "str", "v": r.choice(["txt", "more text", "x"])})
-            # two adjacent strings would merge in XML
-            res = []
-            for x in out:
-                if res and "__p__" in x and "__p__" in res[-1]:
-                    continue
-                res.append(x)
-            return res
+                out.append(gen_any(r, 0, cons, cns, tail_ok=True))
+            return out
         if f.get("list"):
-            return [gen_any(r) for _ in range(r.choice([0, 1, 2]))]
-        return gen_any(r) if r.random() < 0.7 else None
+            return [gen_any(r, 0, cons, cns) for _ in range(r.choice([0, 1, 2]))]
+        return gen_any(r, 0, cons, cns) if r.random() < 0.7 else None
     if kind == "Attributes":
-        return {"__map__": {k: r.choice(["v", "1", "a b"]) for k in r.sample(["x", "{urn:z}y", "{urn:a}z"], r.choice([0, 1, 2]))}}
+        cons = f.get("namespace", "##any")
+        pool = {"##any": ["x", "{urn:z}y", "{urn:a}z"], "##local": ["x", "y"], "##other": ["{urn:other}y", "{urn:other2}z"],
+                "##targetNamespace": ["{%s}y" % class_ns, "{%s}z" % class_ns] if class_ns else ["x", "y"]}[cons]
+        return {"__map__": {k: r.choice(["v", "1", "a b"]) for k in r.sample(pool, r.choice([0, 1, 2]))}}
     if kind == "Elements":
         def one():
             ch = r.choice(f["choices"])
@@ -400,7 +439,8 @@ def gen_value(r, m, f, depth):
 
 def gen_instance(r, m, cname, depth=0):
     c = find_class(m, cname)
-    return {"__cls__": cname, "fields": {f["name"]: gen_value(r, m, f, depth) for f in all_fields(m, c)}}
+    cns = class_namespace(m, c)
+    return {"__cls__": cname, "fields": {f["name"]: gen_value(r, m, f, depth, cns) for f in all_fields(m, c)}}
 
 
 # ------------------------------------------------------------------ impl side
